@@ -351,6 +351,10 @@ class Build:
     def bp_enum(self, full_name: str):
         import betterproto
 
+        ov = getattr(self, "_enum_override", None)
+        if ov and full_name in ov:
+            return ov[full_name]
+
         if full_name.startswith(".google.protobuf."):
             import betterproto.lib.google.protobuf as g
 
@@ -413,6 +417,8 @@ class Build:
     def cleanup(self) -> None:
         for k in [k for k in sys.modules if k == self.root_pkg or k.startswith(self.root_pkg + ".")]:
             del sys.modules[k]
+        if getattr(self, "handmade_module", None):
+            sys.modules.pop(self.handmade_module, None)
         if self.gen in sys.path:
             sys.path.remove(self.gen)
         shutil.rmtree(self.dir, ignore_errors=True)
